@@ -5,7 +5,7 @@ import ast
 from fractions import Fraction
 
 from ..astu import (has, U, dotted, walk_shallow, fold, NotLiteral, fold_module_tables, linform, monomial,
-                    mono_str, call_name, calls_in, _num)
+                    mono_str, call_name, calls_in, _num, names_in)
 from ..core import AnalysisError, Mutant, Rule, Twin
 from ..idioms import for_loops, target_names
 from ..tables import CODATA, NAME_VARIANTS, iupac_table, IUPAC
@@ -87,10 +87,27 @@ def r1_element_table(ctx):
         want = tuple((fn(r[col]) if fn else r[col]) for r in el)
         ctx.check(tuple(env[nm]) == want, PERIODIC + ":" + nm, "derived-column",
                   "%s is not column %d of _elements%s" % (nm, col, " lower-cased" if fn else ""), node=m.assign(nm))
-    # relative_atomic_masses: generator over column 2, float() of the (bracket-stripped) entry
+    # relative_atomic_masses: float() of column 2, brackets stripped for '[A]' entries.  The constant is folded (the table-building generator is
+    # evaluated on the literal table: constant propagation of a module-level constant); only when that is out of the folder's reach is the
+    # spelling of the generator examined instead
     gen = ctx.func(PERIODIC, "_get_relative_atomic_masses")
     a = PERIODIC + ":_get_relative_atomic_masses"
     ram = m.assign("relative_atomic_masses")
+    folded = env.get("relative_atomic_masses")
+    if isinstance(folded, (tuple, list)):
+        want = []
+        for r in el:
+            try:
+                want.append(float(r[2][1:-1]) if isinstance(r[2], str) and r[2].startswith("[") else float(r[2]))
+            except (ValueError, TypeError):
+                want.append(None)
+        bad = [(i + 1, folded[i] if i < len(folded) else None, want[i]) for i in range(len(want)) if i >= len(folded) or folded[i] != want[i] or type(folded[i]) is not float]
+        ctx.check(not bad and len(folded) == len(want), a, "masses=float(column-2)",
+                  "relative_atomic_masses must be float(entry) of column 2 of every row of _elements, in order, brackets stripped for '[A]' entries; "
+                  "%d entries, %d expected; first differences (Z, found, expected): %s" % (len(folded), len(want), bad[:4]), node=gen)
+        for k in ("built-from-generator", "iterates-mass-column", "float-of-entry"):
+            ctx.holds(a, k + ":by-folding")
+        return
     ctx.check(isinstance(ram, ast.Call) and call_name(ram) == "tuple" and len(ram.args) == 1
               and isinstance(ram.args[0], ast.Call) and call_name(ram.args[0]) == "_get_relative_atomic_masses",
               PERIODIC + ":relative_atomic_masses", "built-from-generator",
@@ -266,7 +283,10 @@ def r4_lookup(ctx):
     # the fallback is reached on ValueError only and nothing is swallowed
     tr = [n for n in walk_shallow(fn) if isinstance(n, ast.Try)]
     ok = len(tr) == 1 and len(tr[0].handlers) == 1 and dotted(tr[0].handlers[0].type) == ("KeyError" if "symbols" in key_errors else "ValueError") \
-        and isinstance(tr[0].handlers[0].body[-1], ast.Return)
+        and (isinstance(tr[0].handlers[0].body[-1], ast.Return)
+             or (isinstance(tr[0].handlers[0].body[-1], ast.Assign) and isinstance(tr[0].body[-1], ast.Assign) and len(tr[0].body) == 1 and not tr[0].orelse and not tr[0].finalbody
+                 and U(tr[0].handlers[0].body[-1].targets[0]) == U(tr[0].body[-1].targets[0]) and isinstance(tr[0].body[-1].targets[0], ast.Name)
+                 and any(isinstance(r_, ast.Return) and r_.value is not None and tr[0].body[-1].targets[0].id in names_in(r_.value) for r_ in fn.body[fn.body.index(tr[0]) + 1:])))
     ctx.check(ok, anchor, "fallback-on-ValueError", "the name lookup must be the ValueError fallback of the symbol lookup and return its result", node=fn)
 
 
@@ -471,6 +491,10 @@ MUTANTS.append(Mutant("alkali-group-offset", [(PERIODIC, "groups[1] = (1,) + tup
 MUTANTS.append(Mutant("mass-pops-charge", [(PERIODIC, "    mass = 0.0\n    for k, v in composition.items():\n        if k == 0:  # electron\n            mass -= v * 5.489e-4\n        else:\n            mass += v * relative_atomic_masses[k - 1]\n    return mass", "    mass = -composition.pop(0, 0) * 5.489e-4\n    for k, v in composition.items():\n        mass += v * relative_atomic_masses[k - 1]\n    return mass")], "C14-R7", "argument-not-mutated"))
 MUTANTS.append(Mutant("fractions-zip-by-position", [(CHEM, "    tot_mass = sum([substances[k].mass * v for k, v in stoichiometries.items()])\n    return {k: substances[k].mass * v / tot_mass for k, v in stoichiometries.items()}", "    masses = [s.mass * v for s, v in zip(substances.values(), stoichiometries.values())]\n    tot_mass = sum(masses)\n    return {k: m / tot_mass for k, m in zip(stoichiometries, masses)}")], "C14-R5", "mass-looked-up-by-key"))
 
+MUTANTS.append(Mutant("index-temp-no-offset", [(PERIODIC, "        return symbols.index(name.capitalize()) + 1\n    except ValueError:\n        return lower_names.index(name.lower()) + 1",
+                                                "        index = symbols.index(name.capitalize())\n    except ValueError:\n        index = lower_names.index(name.lower()) + 1\n    return index")], "C14-R2", "Z=index+1"))
+MUTANTS.append(Mutant("masses-brackets-kept-as-zero", [(PERIODIC, "        yield float(mass[1:-1]) if str(mass).startswith(\"[\") else float(mass)",
+                                                        "        yield 0.0 if str(mass).startswith(\"[\") else float(mass)")], "C14-R1", "masses=float"))
 MUTANTS.append(Mutant("symbol-dict-off-by-one", [
     (PERIODIC, "lower_names = tuple(n[1].lower() for n in _elements)\n", "lower_names = tuple(n[1].lower() for n in _elements)\n_number_by_symbol = dict(zip(symbols, range(1, len(symbols))))\n"),
     (PERIODIC, "return symbols.index(name.capitalize()) + 1\n    except ValueError:", "return _number_by_symbol[name.capitalize()]\n    except KeyError:")], "C14-R2", "Z=index+1:symbols.index"))
@@ -483,6 +507,10 @@ TWINS = [
         (PERIODIC, "return symbols.index(name.capitalize()) + 1\n    except ValueError:", "return _number_by_symbol[name.capitalize()]\n    except KeyError:")]),
     Twin("fractions-per-key-table", [(CHEM, "    tot_mass = sum([substances[k].mass * v for k, v in stoichiometries.items()])\n    return {k: substances[k].mass * v / tot_mass for k, v in stoichiometries.items()}",
                                       "    terms = {k: substances[k].mass * v for k, v in stoichiometries.items()}\n    tot_mass = sum(terms.values())\n    return {k: terms[k] / tot_mass for k in stoichiometries}")]),
+    Twin("index-temp-plus-one", [(PERIODIC, "        return symbols.index(name.capitalize()) + 1\n    except ValueError:\n        return lower_names.index(name.lower()) + 1",
+                                  "        index = symbols.index(name.capitalize())\n    except ValueError:\n        index = lower_names.index(name.lower())\n    return index + 1")]),
+    Twin("masses-by-unpacking", [(PERIODIC, "    for mass in tuple(element[2] for element in _elements):\n        yield float(mass[1:-1]) if str(mass).startswith(\"[\") else float(mass)",
+                                  "    for _symbol, _name, weight, _uncertainty in _elements:\n        if str(weight).startswith(\"[\"):\n            yield float(weight[1:-1])\n        else:\n            yield float(weight)")]),
     Twin("mass-copy-then-pop", [(PERIODIC, "    mass = 0.0\n    for k, v in composition.items():", "    composition = dict(composition)\n    mass = 0.0\n    for k, v in composition.items():")]),
     Twin("electron-mass-more-digits", [(PERIODIC, "mass -= v * 5.489e-4", "mass -= v * 5.48579909e-4")]),
     Twin("commuted-product", [(PERIODIC, "mass += v * relative_atomic_masses[k - 1]", "mass += relative_atomic_masses[k - 1] * v")]),
